@@ -137,7 +137,14 @@ func (j *Joe) Subscribe(ctx context.Context, sub Subscription) error {
 	case err := <-done:
 		return err
 	case j.unsubscription <- done:
-		return nil
+		// The subscriber may have failed before Joe received the unsubscription: in
+		// that case its error is already buffered and must be returned.
+		select {
+		case err := <-done:
+			return err
+		default:
+			return nil
+		}
 	}
 }
 
@@ -201,6 +208,12 @@ func (j *Joe) Shutdown(ctx context.Context) (err error) {
 }
 
 func (j *Joe) removeSubscriber(sub subscriber) {
+	if _, ok := j.subscribers[sub]; !ok {
+		// Already removed (and closed) because sending to it failed; the
+		// unsubscription that raced with the failure must not close it again.
+		return
+	}
+
 	delete(j.subscribers, sub)
 	close(sub)
 }
